@@ -1,10 +1,150 @@
 import GormModel.Drv.Util
+import GormModel.Model.Where
 open Lean
 namespace Gorm.Drv
 
-/-- line-protocol handler for C02 (ops are JSON arrays `[opname, args…]`); returns `none` for ops it does not own -/
+def parseJoiner (j : Json) : Option Joiner :=
+  match jStr? j with
+  | some "and" => some .and
+  | some "or" => some .or
+  | _ => none
+
+mutual
+partial def parseCore (j : Json) : Option Core :=
+  match j.getObjVal? "a" with
+  | .ok v => do
+    let a ← jArr? v
+    some (.atom (← jNat? (arg a 0)) (← jBool? (arg a 1)) (← jStr? (arg a 2)))
+  | .error _ =>
+    match j.getObjVal? "p" with
+    | .ok v => (parseFlat v).map Core.paren
+    | .error _ =>
+      match j.getObjVal? "s" with
+      | .ok v => do
+        let a ← jArr? v
+        some (.splice (← jStr? (arg a 0)) (← parseFlat (arg a 1)))
+      | .error _ => none
+partial def parseFlat (j : Json) : Option Flat := do
+  let a ← jArr? j
+  a.toList.mapM fun it => do
+    let p ← jArr? it
+    some (← parseJoiner (arg p 0), ← jNat? (arg p 1), ← parseCore (arg p 2))
+end
+
+def parseKind (s : String) : Option AtomKind :=
+  match s with
+  | "eq" => some .eq | "neq" => some .neq | "gt" => some .gt | "gte" => some .gte
+  | "lt" => some .lt | "lte" => some .lte | "like" => some .like | "in" => some .inK
+  | _ => none
+
+def parseAtom (j : Json) : Option Atom := do
+  let col ← jStr? (← (j.getObjVal? "col").toOption)
+  let kind ← parseKind (← jStr? (← (j.getObjVal? "kind").toOption))
+  let vj ← (j.getObjVal? "val").toOption
+  let val ← match vj with
+    | Json.str "scalar" => some ValShape.scalar
+    | Json.str "nil" => some ValShape.nil
+    | _ => (jNat? vj).map ValShape.list
+  let id ← jNat? (← (j.getObjVal? "id").toOption)
+  some { col, kind, val, id }
+
+partial def parseEx (j : Json) : Option Ex :=
+  match j.getObjVal? "raw" with
+  | .ok v => do
+    let a ← jArr? v
+    some (.raw (← jStr? (arg a 0)) (← jBool? (arg a 1)) (← jStr? (arg a 2)) (← parseFlat (arg a 3)))
+  | .error _ =>
+    match j.getObjVal? "atom" with
+    | .ok v => (parseAtom v).map Ex.atom
+    | .error _ =>
+      match j.getObjVal? "and" with
+      | .ok v => do some (.and (← (← jArr? v).toList.mapM parseEx))
+      | .error _ =>
+        match j.getObjVal? "or" with
+        | .ok v => do some (.or (← (← jArr? v).toList.mapM parseEx))
+        | .error _ =>
+          match j.getObjVal? "not" with
+          | .ok v => do some (.not (← (← jArr? v).toList.mapM parseEx))
+          | .error _ => none
+
+def parseOp (j : Json) : Option ChainOp :=
+  match jStr? j with
+  | some "where" => some .where_
+  | some "not" => some .not_
+  | some "or" => some .or_
+  | _ => none
+
+mutual
+partial def parseForm (j : Json) : Option Form :=
+  match j with
+  | Json.str "empty" => some .empty
+  | _ =>
+    match j.getObjVal? "raw" with
+    | .ok v => do
+      let a ← jArr? v
+      some (.raw (← jStr? (arg a 0)) (← jBool? (arg a 1)) (← jStr? (arg a 2)) (← parseFlat (arg a 3)))
+    | .error _ =>
+      match j.getObjVal? "col" with
+      | .ok v => (parseAtom v).map Form.col
+      | .error _ =>
+        match j.getObjVal? "fields" with
+        | .ok v => do some (.fields (← (← jArr? v).toList.mapM parseAtom))
+        | .error _ =>
+          match j.getObjVal? "expr" with
+          | .ok v => (parseEx v).map Form.expr
+          | .error _ =>
+            match j.getObjVal? "group" with
+            | .ok v => do some (.group (chainExprs (← parseChain v)))
+            | .error _ => none
+partial def parseChain (j : Json) : Option (List (ChainOp × Form)) := do
+  let a ← jArr? j
+  a.toList.mapM fun it => do
+    let p ← jArr? it
+    some (← parseOp (arg p 0), ← parseForm (arg p 1))
+end
+
+/-- envs: array of arrays of "t"/"f"/"u" indexed by predicate id -/
+def parseEnv (j : Json) : Option (Nat → V3) := do
+  let a ← jArr? j
+  let vs ← a.toList.mapM fun v => match jStr? v with
+    | some "t" => some V3.t | some "f" => some V3.f | some "u" => some V3.u | _ => none
+  some (fun i => vs.getD i .u)
+
+def v3J : V3 → Json | .t => "t" | .f => "f" | .u => "u"
+
+def parseSoft (j : Json) : Option (Bool × Option Atom) := do
+  -- [unscoped, filterAtom|null]
+  let a ← jArr? j
+  let un ← jBool? (arg a 0)
+  match arg a 1 with
+  | Json.null => some (un, none)
+  | v => some (un, some (← parseAtom v))
+
 def handleC02 (op : String) (args : Array Json) : Option Json := do
   match op with
+  | "detector" => some (Json.bool (detector (← jStr? (arg args 1))))
+  | "expr.build" => some (Json.str (textFlat (← parseEx (arg args 1)).build))
+  | "where.build" =>
+    let es ← (← jArr? (arg args 1)).toList.mapM parseEx
+    some (Json.str (textFlat (whereBuild es)))
+  | "chain.render" =>
+    -- ["chain.render", chain, [unscoped, filter|null], envs] -> {sql, vals, missing}
+    let ch ← parseChain (arg args 1)
+    let (un, filt) ← parseSoft (arg args 2)
+    let envs ← (← jArr? (arg args 3)).toList.mapM parseEnv
+    let es := chainExprs ch
+    let st0 : WhereState := { exprs := if es.isEmpty then none else some es, softEnabled := false }
+    let st := match filt with
+      | some f => softDeleteModify un f st0
+      | none => st0
+    let flat := whereBuild (st.exprs.getD [])
+    some (Json.mkObj [
+      ("sql", Json.str (textFlat flat)),
+      ("vals", Json.arr (envs.map (fun e => v3J (sqlEval e flat))).toArray),
+      ("missing", Json.bool (missingWhere false st)),
+      ("sound", Json.bool (whereSound (st.exprs.getD []))),
+      ("mixedNot", Json.bool (anyMixedNot (st.exprs.getD []))),
+      ("nexprs", natJ (st.exprs.getD []).length)])
   | _ => none
 
 end Gorm.Drv
